@@ -24,7 +24,6 @@ LAYOUT_TYPE_TO_TY = {"T32_ADR": "t32_adr", "T32_BLX": "t32_blx", "T32_B": "t32_b
                      "A32_U23_0To3At0_4To7At8": "a32_u23_split", "A32_1To24At0_0At24": "a32_blx", "A64_ADR": "adr", "A64_ADRP": "adrp"}
 T32_VARIANT = {"v": "pp"}    # first letter: B.W/BL/BLX packer, second: B<c>.W packer; p = pinned (defective), f = fixed
 X86_MEM_CHECKED = {"v": "u"}   # "c": (Mem, Imm) ALU forms refuse a qword destination with a non-int32 immediate (fixed tree), "u": pinned
-UNSIGNED64_NEG_CHECKED = {"v": "u"}   # "c": encode_offset64 refuses a negative displacement for kUnsignedOffset (fixed), "u": pinned
 X86_TM_CHECKED = {"v": "u"}    # "c": TEST r/m64, imm and MOV m64, imm refuse a non-int32 immediate (fixed tree), "u": pinned (truncates)
 X86_OPS = ["add", "or", "adc", "sbb", "and", "sub", "xor", "cmp", "test", "mov", "imul", "push"]
 NLIST = [2, 7, 8, 9, 12, 14, 16, 19, 21, 24, 25, 26, 31, 32, 33, 48, 63, 64]
@@ -110,6 +109,10 @@ def encodable(ty, vs, bits, sh, dl, off):
     if name in ("signed", "adr", "adrp", "a32_blx"):
         return -(1 << (bits - 1)) <= v < (1 << (bits - 1))
     if name == "unsigned":
+        if vs == 8:
+            # the int64 argument is the two's-complement image of a uint64 displacement (absolute addresses >= 2^63 go through
+            # the 8-byte format): the field holds (off mod 2^64) >> discard
+            return ((off & M64) >> dl) < (1 << bits)
         return 0 <= v < (1 << bits)
     if name in ("t32_b", "t32_blx", "t32_bcond"):
         # the signed range test is shared with every other signed format and is right in both variants
@@ -274,7 +277,8 @@ OTHER_FORMATS = [
     ("signed 7@15 d3", TY["signed"], 4, 7, 15, 3), ("signed 5@3 (1 byte)", TY["signed"], 1, 5, 3, 0),
     ("signed 11@2 d1 (2 byte)", TY["signed"], 2, 11, 2, 1), ("signed 33@7 (8 byte)", TY["signed"], 8, 33, 7, 2),
     ("unsigned 40@3 (8 byte)", TY["unsigned"], 8, 40, 3, 0),
-    ("unsigned 61@0 d3 (8 byte, bits+discard = 64)", TY["unsigned"], 8, 61, 0, 3), ("unsigned 64@0 (8 byte)", TY["unsigned"], 8, 64, 0, 0),
+    ("unsigned 61@0 d3 (8 byte, bits+discard = 64: uint64 reading)", TY["unsigned"], 8, 61, 0, 3),
+    ("unsigned 64@0 (8 byte absolute address, uint64 reading)", TY["unsigned"], 8, 64, 0, 0),
     ("unsigned 60@2 d3 (8 byte, bits+discard = 63)", TY["unsigned"], 8, 60, 2, 3),
     ("t32 adr", TY["t32_adr"], 4, 12, 0, 0), ("a32 adr", TY["a32_adr"], 4, 12, 0, 0), ("a32 u23 12", TY["a32_u23"], 4, 12, 0, 0),
     ("a32 u23 8 d2", TY["a32_u23"], 4, 8, 0, 2), ("a32 u23 split", TY["a32_u23_split"], 4, 8, 0, 0),
@@ -558,10 +562,9 @@ def judge(cmd, ans, logical_sets):
                 return (KNOWN_BAD_TYPES.get(name) or "C17/%s/outside-bits-changed" % name, "%s -> word %#x changed bits outside the field (old %#x)" % (cmd, w, old))
             if old & fm == 0:
                 got = decode_field(ty, vs, bits, sh, dl, w)
-                if got != off:
+                want_off = (off & M64) if (name == "unsigned" and vs == 8) else off      # uint64 reading of 8-byte unsigned fields
+                if got != want_off:
                     key = KNOWN_BAD_TYPES.get(name) or "C17/%s/wrong-field" % name
-                    if name == "unsigned" and vs == 8 and off < 0:
-                        key = "C17/unsigned64/negative-accepted"
                     return (key, "%s (%s) stored %#x which denotes displacement %d, not %d" % (cmd, name, w, got, off))
             return None
         else:
@@ -722,13 +725,7 @@ def judge(cmd, ans, logical_sets):
 
 
 def model_cmd(model):
-    return [model, T32_VARIANT["v"], X86_MEM_CHECKED["v"], X86_TM_CHECKED["v"], UNSIGNED64_NEG_CHECKED["v"]]
-
-
-def probe_unsigned64(impl):
-    """8-byte unsigned field with bits + discard = 64: is the displacement -8 refused (fixed) or stored as 2^61 - 1 (pinned)?"""
-    out = vlib.sh([impl], inp="V %d 8 61 0 3 -8 0\nV %d 8 64 0 0 -1 0\n" % (TY["unsigned"], TY["unsigned"]))[1].split("\n")
-    return "c" if all(o.split()[:2] == ["V", "0"] for o in out[:2]) else "u"
+    return [model, T32_VARIANT["v"], X86_MEM_CHECKED["v"], X86_TM_CHECKED["v"]]
 
 
 def probe_x86_test_mov(impl):
@@ -898,9 +895,8 @@ def run(ck):
     T32_VARIANT["v"] = probe_t32(impl)
     X86_MEM_CHECKED["v"] = probe_x86_mem(impl)
     X86_TM_CHECKED["v"] = probe_x86_test_mov(impl)
-    UNSIGNED64_NEG_CHECKED["v"] = probe_unsigned64(impl)
-    ck.log("Thumb-2 branch packers of the tree: %s; x86 ALU (Mem, Imm) qword int32 test: %s; TEST r/m64 / MOV m64 / IMUL / PUSH int32 test: %s; unsigned 8-byte negative test: %s" % (
-        T32_VARIANT["v"], {"c": "present", "u": "absent"}[X86_MEM_CHECKED["v"]], {"c": "present", "u": "absent"}[X86_TM_CHECKED["v"]], {"c": "present", "u": "absent"}[UNSIGNED64_NEG_CHECKED["v"]]))
+    ck.log("Thumb-2 branch packers of the tree: %s; x86 ALU (Mem, Imm) qword int32 test: %s; TEST r/m64 / MOV m64 / IMUL / PUSH int32 test: %s" % (
+        T32_VARIANT["v"], {"c": "present", "u": "absent"}[X86_MEM_CHECKED["v"]], {"c": "present", "u": "absent"}[X86_TM_CHECKED["v"]]))
 
     if ck.replay:
         import json
@@ -1001,7 +997,7 @@ def run(ck):
          "traces_validated_against_impl": len(cmds), "model_vs_impl_disagreements": disagreements,
          "formats": [f[0] for f in USED_FORMATS + OTHER_FORMATS],
          "limit_cases_present": lim_counters, "limit_cases_total": len(lim_counters), "limit_cases_missing": len(lim_missing),
-         "layout_translator": layout_info, "t32_variant_of_tree": T32_VARIANT["v"], "x86_mem_imm64_test_of_tree": X86_MEM_CHECKED["v"], "x86_test_mov_imm64_test_of_tree": X86_TM_CHECKED["v"], "unsigned64_negative_test_of_tree": UNSIGNED64_NEG_CHECKED["v"],
+         "layout_translator": layout_info, "t32_variant_of_tree": T32_VARIANT["v"], "x86_mem_imm64_test_of_tree": X86_MEM_CHECKED["v"], "x86_test_mov_imm64_test_of_tree": X86_TM_CHECKED["v"],
          "bfm_pseudocode_cross_validation_cases": n_z, "bfm_pseudocode_cross_validation_mismatches": bad_z, "llvm_mc_t32_reference_cases": n_ref, "llvm_mc_t32_reference_errors": len(ref_errors)},
         assumptions=["the C++ harness calls the real functions of /repo's working tree (CodeWriterUtils::write_offset, arm::Utils::*, "
                      "a64 encode_mov_sequence_*/encode_lmh via #include of a64assembler.cpp)",
